@@ -165,6 +165,22 @@ CLAIMED = {
         technique="symbolic execution (CrossHair/z3) of real layout + codec on revision pairs; symbolic extent and leaf values",
         ref="3/C14",
     ),
+    "C16": dict(
+        text="Symbolic execution of the real constructors and BitLengthSet queries (min, max, extent, fixed_length, byte "
+        "alignment of the type, of every field and of every field offset, BitLengthSet ==) on 9 shapes whose array capacity / "
+        "extent is SYMBOLIC: n = 32*q + r with q ranging over everything up to 2**63 (r scaffolding), also through the reader "
+        "with the capacity injected as an identifier. Work that grows with the capacity is turned into assertions over the "
+        "symbolic value by harness-side spies: Operator.expand raises; the name `range` in the bit-length-set and type "
+        "modules asserts bound <= 256; `_symbolic.itertools` asserts repetition counts <= 2d-1, operands <= d (d = 64) and "
+        "bounds the tuples. A condition holds when its path tree is exhausted with no spy firing - a capacity-dependent loop "
+        "makes the spy's assertion falsifiable and the solver returns a capacity. Type-level ==/hash/str (which realise a "
+        "symbolic capacity) run on a concrete ladder 2..2**63 under the same spies, tuple counts compared across the ladder.",
+        note="Wall-clock time itself is outside the claim. math.log2 realises the capacity's bit length, so each condition "
+        "enumerates <= 64 bit lengths. == on huge arrays of variable composites legitimately enumerates ~10**6 tuples "
+        "(divisor 32) and is exercised natively (ladder) rather than under the tracer.",
+        technique="symbolic execution (CrossHair/z3) with symbolic capacities; loop-bound / expansion spies as assertions",
+        ref="3/C16",
+    ),
     "C17": dict(
         text="Symbolic execution of the real parser / builder / reader on in-memory definitions: (a) the innermost-location "
         "rule of Error.set_error_location_if_unknown for unbounded symbolic line numbers and every presence pattern; (b) "
